@@ -15,6 +15,7 @@ use std::task::{Context, Poll};
 use std::time::Duration;
 
 use bytes::BytesMut;
+use futures::future::{select, Either};
 use futures::StreamExt;
 use swimos_agent::agent_model::AgentModel;
 use swimos_agent_protocol::encoding::downlink::DownlinkNotificationEncoder;
@@ -68,6 +69,13 @@ pub struct HostedRecord {
     pub marks: Vec<(u64, String)>,
     /// Notifications completely written into the channel.
     pub fed: usize,
+    /// Notifications of the session after the write failure completely written into the channel.
+    pub fed2: usize,
+    pub fed2_at_main_idle: usize,
+    /// Step at which the link peer dropped the reader of the output channel (the fault fired).
+    pub out_fail_step: Option<u64>,
+    /// (connection index, step) of the connection established for the request that followed the fault.
+    pub recon_after_fail: Option<(u32, u64)>,
     pub link_requests: u32,
     pub connections: u32,
     pub refused_requests: u32,
@@ -131,6 +139,60 @@ struct Ctrl {
     bad_requests: Vec<String>,
     marks: Vec<(u64, String)>,
     outs: Vec<(u64, u32, OutOp)>,
+    /// Output-channel fault: armed while the sender is here; triggering it makes the output decoders drop
+    /// their readers and releases the peer's write. The receiver kept here is only cloned, never polled.
+    out_fail_tx: Option<trigger::Sender>,
+    out_fail_rx: Option<trigger::Receiver>,
+    out_fail_step: Option<u64>,
+    /// Output decoders that still hold a reader the fault has to take away, and the signal that the last of
+    /// them is gone after the fault fired: only then may the peer issue its write (a write issued earlier
+    /// could still find the channel intact and nothing would fail).
+    armed_drains: u32,
+    out_dropped_tx: Option<trigger::Sender>,
+    out_dropped_rx: Option<trigger::Receiver>,
+    recon_after_fail: Option<(u32, u64)>,
+    /// Position in / notifications fed of the session served after the write failure.
+    pos2: usize,
+    fed2: usize,
+}
+
+/// The link peer drops the read half of the downlink's output channel (once). From now on the base script is
+/// over: the next link request of the agent is accepted and gets the session after the write failure.
+fn fire_out_fail(ctrl: &SharedCtrl, step: u64, by: &str) {
+    let tx = {
+        let mut c = ctrl.borrow_mut();
+        let Some(tx) = c.out_fail_tx.take() else { return };
+        c.out_fail_step = Some(step);
+        c.expect_reconnect = true;
+        let fed = c.fed;
+        c.marks.push((step, format!("fault: the link peer drops the reader of the output channel after {fed} notifications ({by})")));
+        tx
+    };
+    tx.trigger();
+    readers_dropped(ctrl);
+}
+
+/// Releases the peer's write once the fault has fired and no output decoder holds a reader any more.
+fn readers_dropped(ctrl: &SharedCtrl) {
+    let tx = {
+        let mut c = ctrl.borrow_mut();
+        if c.out_fail_step.is_some() && c.armed_drains == 0 {
+            c.out_dropped_tx.take()
+        } else {
+            None
+        }
+    };
+    if let Some(tx) = tx {
+        tx.trigger();
+    }
+}
+
+/// An output decoder that could be hit by the fault has dropped its reader (because of it or not).
+fn drain_gone(ctrl: &SharedCtrl, armed: bool) {
+    if armed {
+        ctrl.borrow_mut().armed_drains -= 1;
+        readers_dropped(ctrl);
+    }
 }
 
 type SharedCtrl = Rc<RefCell<Ctrl>>;
@@ -200,10 +262,25 @@ fn encode_note(n: &N) -> BytesMut {
 
 /// The scripted link: writes the notifications of the script (from the shared position) into the channel
 /// the hosted downlink reads. Keeps the channel open after the script until the harness ends the link.
-async fn feeder(mut tx: ByteWriter, ctrl: SharedCtrl, sc: HostedScenario, conn: u32) {
-    let script = &sc.base.script;
+/// `second`: the connection was asked for after the write failure and gets the session of the fault.
+async fn feeder(mut tx: ByteWriter, ctrl: SharedCtrl, sc: HostedScenario, conn: u32, second: bool) {
+    let fault = sc.out_fail_at();
+    let script: &[N] = match fault {
+        Some((of, _)) if second => &of.second,
+        _ => &sc.base.script,
+    };
     loop {
-        let i = ctrl.borrow().pos;
+        let i = if second { ctrl.borrow().pos2 } else { ctrl.borrow().pos };
+        if let (Some((of, at)), false) = (fault, second) {
+            if i >= at {
+                // The fault point: nothing more is sent on this link (its input stays open, only the output
+                // fails). A racing fault fires now, a settled one when the system is idle (main loop).
+                if !of.settle {
+                    fire_out_fail(&ctrl, now_step(), "racing");
+                }
+                break;
+            }
+        }
         if i >= script.len() {
             break;
         }
@@ -216,17 +293,22 @@ async fn feeder(mut tx: ByteWriter, ctrl: SharedCtrl, sc: HostedScenario, conn: 
             let mut c = ctrl.borrow_mut();
             c.write_failed = true;
             c.feeders_alive -= 1;
-            let fed = c.fed;
+            let fed = if second { c.fed2 } else { c.fed };
             c.marks.push((now_step(), format!("conn{conn} feeder: reader gone after {fed} notifications")));
             return;
         }
         {
             let mut c = ctrl.borrow_mut();
-            c.pos = i + 1;
-            c.fed += 1;
+            if second {
+                c.pos2 = i + 1;
+                c.fed2 += 1;
+            } else {
+                c.pos = i + 1;
+                c.fed += 1;
+            }
         }
         yield_n(sc.base.gap).await;
-        if sc.reconnect && !sc.base.terminate_on_unlinked && script[i] == N::Unlinked && i + 1 < script.len() {
+        if !second && sc.reconnect && !sc.base.terminate_on_unlinked && script[i] == N::Unlinked && i + 1 < script.len() {
             // The link is over; the next session arrives on a fresh connection (the agent reconnects a
             // downlink that does not terminate on unlinked).
             let mut c = ctrl.borrow_mut();
@@ -244,12 +326,39 @@ async fn feeder(mut tx: ByteWriter, ctrl: SharedCtrl, sc: HostedScenario, conn: 
     drop(tx);
 }
 
+/// `fut`, unless the output-channel fault fires first (`None`: the caller drops its reader). A trigger that can
+/// no longer fire (no fault in this run, or the sender is gone) is forgotten.
+async fn or_killed<F: Future + Unpin>(kill: &mut Option<trigger::Receiver>, fut: F) -> Option<F::Output> {
+    match kill.as_mut() {
+        None => Some(fut.await),
+        Some(k) => match select(k, fut).await {
+            Either::Left((Ok(()), _)) => None,
+            Either::Left((Err(_), fut)) => {
+                *kill = None;
+                Some(fut.await)
+            }
+            Either::Right((out, _)) => Some(out),
+        },
+    }
+}
+
 /// Decodes what the hosted value downlink writes: `DownlinkOperation` frames (u64 length + Recon body).
-async fn drain_value(mut rx: ByteReader, ctrl: SharedCtrl, conn: u32) {
+async fn drain_value(mut rx: ByteReader, ctrl: SharedCtrl, conn: u32, mut kill: Option<trigger::Receiver>) {
+    let armed = kill.is_some();
     let mut buf = BytesMut::new();
     let mut chunk = [0u8; 256];
     loop {
-        match rx.read(&mut chunk).await {
+        let read = match or_killed(&mut kill, Box::pin(rx.read(&mut chunk))).await {
+            Some(r) => r,
+            None => {
+                // The fault: the read half goes away with bytes possibly still in the channel.
+                drop(rx);
+                ctrl.borrow_mut().marks.push((now_step(), format!("conn{conn} output reader dropped (fault) leftover={}", buf.len())));
+                drain_gone(&ctrl, armed);
+                return;
+            }
+        };
+        match read {
             Ok(0) | Err(_) => break,
             Ok(n) => {
                 buf.extend_from_slice(&chunk[..n]);
@@ -269,14 +378,26 @@ async fn drain_value(mut rx: ByteReader, ctrl: SharedCtrl, conn: u32) {
             }
         }
     }
+    drop(rx);
     ctrl.borrow_mut().marks.push((now_step(), format!("conn{conn} output closed leftover={}", buf.len())));
+    drain_gone(&ctrl, armed);
 }
 
 /// Decodes what the hosted map downlink writes: `MapOperation` frames.
-async fn drain_map(rx: ByteReader, ctrl: SharedCtrl, conn: u32) {
+async fn drain_map(rx: ByteReader, ctrl: SharedCtrl, conn: u32, mut kill: Option<trigger::Receiver>) {
+    let armed = kill.is_some();
     let mut framed = FramedRead::new(rx, MapOperationDecoder::<i32, i32>::default());
     loop {
-        match framed.next().await {
+        let item = match or_killed(&mut kill, framed.next()).await {
+            Some(i) => i,
+            None => {
+                drop(framed);
+                ctrl.borrow_mut().marks.push((now_step(), format!("conn{conn} output reader dropped (fault)")));
+                drain_gone(&ctrl, armed);
+                return;
+            }
+        };
+        match item {
             None => break,
             Some(Ok(op)) => {
                 let op = match op {
@@ -292,7 +413,9 @@ async fn drain_map(rx: ByteReader, ctrl: SharedCtrl, conn: u32) {
             }
         }
     }
+    drop(framed);
     ctrl.borrow_mut().marks.push((now_step(), format!("conn{conn} output closed")));
+    drain_gone(&ctrl, armed);
 }
 
 /// The downlink runtime as far as the agent can see it.
@@ -320,19 +443,28 @@ async fn link_server(mut rx: mpsc::Receiver<LinkRequest>, ctrl: SharedCtrl, spaw
                     ok
                 };
                 if accept {
-                    let conn = {
+                    let (conn, second, kill) = {
                         let mut c = ctrl.borrow_mut();
                         c.connections += 1;
                         c.feeders_alive += 1;
-                        c.connections - 1
+                        let conn = c.connections - 1;
+                        // After the fault has fired: this is the reconnection that follows the write failure.
+                        let second = c.out_fail_step.is_some();
+                        if second {
+                            c.recon_after_fail = Some((conn, now_step()));
+                        }
+                        // The output of a connection made while the fault is armed can be made to fail.
+                        let kill = if c.out_fail_tx.is_some() { c.out_fail_rx.clone() } else { None };
+                        c.armed_drains += kill.is_some() as u32;
+                        (conn, second, kill)
                     };
                     let (in_tx, in_rx) = byte_channel(NonZeroUsize::new(sc.base.in_cap.max(1) as usize).unwrap());
                     let (out_tx, out_rx) = byte_channel(NonZeroUsize::new(sc.base.out_cap.max(1) as usize).unwrap());
-                    spawn.borrow_mut().push((format!("feeder{conn}"), 64, Box::pin(feeder(in_tx, ctrl.clone(), sc.clone(), conn))));
+                    spawn.borrow_mut().push((format!("feeder{conn}"), 64, Box::pin(feeder(in_tx, ctrl.clone(), sc.clone(), conn, second))));
                     if sc.base.map {
-                        spawn.borrow_mut().push((format!("drain{conn}"), 64, Box::pin(drain_map(out_rx, ctrl.clone(), conn))));
+                        spawn.borrow_mut().push((format!("drain{conn}"), 64, Box::pin(drain_map(out_rx, ctrl.clone(), conn, kill))));
                     } else {
-                        spawn.borrow_mut().push((format!("drain{conn}"), 64, Box::pin(drain_value(out_rx, ctrl.clone(), conn))));
+                        spawn.borrow_mut().push((format!("drain{conn}"), 64, Box::pin(drain_value(out_rx, ctrl.clone(), conn, kill))));
                     }
                     ctrl.borrow_mut().marks.push((now_step(), format!("conn{conn} established")));
                     let _ = d.promise.send(Ok((out_tx, in_rx)));
@@ -363,6 +495,17 @@ enum PeerOp {
     Cmd(HostCtl),
     Pause(u32),
     WaitPhase(u32),
+    /// Parks until the output-channel fault has fired and the reader is really gone.
+    WaitOutFail,
+}
+
+fn local_ctl(op: &LocalOp) -> HostCtl {
+    match op {
+        LocalOp::Upd(k, v) => HostCtl::Upd { k: *k, v: *v },
+        LocalOp::Rem(k) => HostCtl::Rem { k: *k },
+        LocalOp::Clr => HostCtl::Clr,
+        LocalOp::Set(v) => HostCtl::Set { v: *v },
+    }
 }
 
 fn peer_script(sc: &HostedScenario) -> Vec<PeerOp> {
@@ -375,12 +518,7 @@ fn peer_script(sc: &HostedScenario) -> Vec<PeerOp> {
     let mut local: Vec<(u32, HostCtl)> = vec![];
     if sc.base.map {
         for (after, op) in sc.map_ops.iter() {
-            let c = match op {
-                LocalOp::Upd(k, v) => HostCtl::Upd { k: *k, v: *v },
-                LocalOp::Rem(k) => HostCtl::Rem { k: *k },
-                LocalOp::Clr => HostCtl::Clr,
-            };
-            local.push((*after, c));
+            local.push((*after, local_ctl(op)));
         }
     } else {
         let mut sets = sc.base.local_sets.clone();
@@ -395,6 +533,12 @@ fn peer_script(sc: &HostedScenario) -> Vec<PeerOp> {
         ops.push(PeerOp::Pause(after.saturating_sub(at)));
         at = at.max(after);
         ops.push(PeerOp::Cmd(c));
+    }
+    if let Some((of, _)) = sc.out_fail_at() {
+        // The write that meets the broken channel: whatever the drawn times of the other local writes, one
+        // is issued after the fault.
+        ops.push(PeerOp::WaitOutFail);
+        ops.push(PeerOp::Cmd(local_ctl(&of.write)));
     }
     ops.push(PeerOp::WaitPhase(1));
     ops.push(PeerOp::Cmd(HostCtl::Ping { n: 1 }));
@@ -452,6 +596,12 @@ async fn peer(att_tx: mpsc::Sender<AgentAttachmentRequest>, ctrl: SharedCtrl, sp
         match op {
             PeerOp::Pause(n) => yield_n(n).await,
             PeerOp::WaitPhase(p) => WaitPhase { ctrl: ctrl.clone(), target: p }.await,
+            PeerOp::WaitOutFail => {
+                let rx = ctrl.borrow().out_dropped_rx.clone();
+                if let Some(rx) = rx {
+                    let _ = rx.await;
+                }
+            }
             PeerOp::Cmd(c) => {
                 let body = ctl_recon(&c);
                 let frame: RequestMessage<&str, &[u8]> = RequestMessage::command(id, RelativeAddress::new(NODE_URI, "ctl"), body.as_bytes());
@@ -491,6 +641,15 @@ pub async fn run(sc: &HostedScenario, keep_log: bool) -> HostedRecord {
     let mut exec = Exec::new(Scheduler::new(Rng::new(sc.base.sched_seed), policy, 2_000), EventLog::new(keep_log));
     exec.trace_polls = keep_log && std::env::var("VERIF_TRACE_POLLS").is_ok();
     let ctrl: SharedCtrl = Rc::new(RefCell::new(Ctrl::default()));
+    if sc.out_fail_at().is_some() {
+        let (tx, rx) = trigger::trigger();
+        let mut c = ctrl.borrow_mut();
+        c.out_fail_tx = Some(tx);
+        c.out_fail_rx = Some(rx);
+        let (tx, rx) = trigger::trigger();
+        c.out_dropped_tx = Some(tx);
+        c.out_dropped_rx = Some(rx);
+    }
     let spawn: SpawnQueue = Rc::new(RefCell::new(vec![]));
 
     let cfg = HostCfg {
@@ -553,6 +712,10 @@ pub async fn run(sc: &HostedScenario, keep_log: bool) -> HostedRecord {
         outs: vec![],
         marks: vec![],
         fed: 0,
+        fed2: 0,
+        fed2_at_main_idle: 0,
+        out_fail_step: None,
+        recon_after_fail: None,
         link_requests: 0,
         connections: 0,
         refused_requests: 0,
@@ -594,9 +757,16 @@ pub async fn run(sc: &HostedScenario, keep_log: bool) -> HostedRecord {
         // Idle: nothing can make progress without the harness (or the passage of time).
         let phase = ctrl.borrow().phase;
         match phase {
+            0 if ctrl.borrow().out_fail_tx.is_some() => {
+                // The fault is still armed: a settled fault fires now that everything sent so far has been
+                // consumed (or the peer never got to the fault point: the run is stuck, and said to be).
+                // The main phase goes on with the write failure, the reconnection and the second session.
+                fire_out_fail(&ctrl, exec.steps, "idle");
+            }
             0 => {
                 rec.main_idle_step = Some(exec.steps);
                 rec.fed_at_main_idle = ctrl.borrow().fed;
+                rec.fed2_at_main_idle = ctrl.borrow().fed2;
                 rec.agent_done_at_main_idle = exec.is_done(agent_node);
                 let mut c = ctrl.borrow_mut();
                 c.marks.push((exec.steps, "main idle".to_string()));
@@ -676,6 +846,9 @@ pub async fn run(sc: &HostedScenario, keep_log: bool) -> HostedRecord {
     rec.outs = c.outs.clone();
     rec.marks = c.marks.clone();
     rec.fed = c.fed;
+    rec.fed2 = c.fed2;
+    rec.out_fail_step = c.out_fail_step;
+    rec.recon_after_fail = c.recon_after_fail;
     rec.link_requests = c.link_requests;
     rec.connections = c.connections;
     rec.refused_requests = c.refused;
